@@ -616,3 +616,26 @@ Theorem C01_builder3_structural : forall tys sigs p g, run3 tys sigs p = Ok g ->
   r_index g = true /\ r_child_tags g = true /\ r_first_second g = true /\ r_root_no_edges g = true.
 Proof. exact run3_structural. Qed.
 Print Assumptions C01_builder3_structural.
+
+(* ---- the tie: what the correspondence check compares (false alarms corrected: harmless renumbering) ----
+   The property promises validity of the serialised document; it does not say which index a node gets (Hugr.insert_hugr
+   may copy the nodes of an inserted Hugr in any parent-before-child order that keeps the order of siblings).  The
+   theorems above speak about the document `run / run2 / run3s` produce, in the MODEL's numbering; `corr` (run/C01Run.v)
+   accepts the implementation's document h for the model's g only if `graph_isob opb g h = true`.  This theorem says
+   what that boolean establishes, whatever renumbering its traversal proposes: a bijection pi of the node indices that
+   fixes the root, relates the operations (opb: equality of operations; for function constants the nested documents
+   named are compared the same way), carries parents to parents, keeps the order of siblings (so Input / Output, entry /
+   exit block and Case positions agree) and carries the edges of g onto the edges of h as multisets (offsets explicit).
+   NOT proved: that `valid` is invariant under such a renumbering (it is for a renumbering that keeps parents before
+   children, which `r_index` checks of h); `valid` is evaluated on the implementation's own document by the monitor. *)
+From HV Require Import model.DocIso spec.DocIsoS proofs.DocIsoP.
+Theorem C01_corr_is_isomorphism_check : forall opb g h,
+  graph_isob opb g h = true -> exists pi, DocIso (fun a b => opb a b = true) pi g h.
+Proof. exact graph_isob_sound. Qed.
+Print Assumptions C01_corr_is_isomorphism_check.
+(* With the plain operation comparison (CProg, CProg2, and the nested documents of CProg3): the operations of a node
+   and of its image are EQUAL (Leibniz equality of the literals, i.e. of every fact `valid` reads). *)
+Theorem C01_corr_is_isomorphism_check_eq : forall g h,
+  graph_isob (vop_eqb_with N.eqb) g h = true -> exists pi, DocIso eq pi g h.
+Proof. exact graph_isob_eq_sound. Qed.
+Print Assumptions C01_corr_is_isomorphism_check_eq.
